@@ -737,11 +737,119 @@ def setter_histories(ctx, cuqi, B):
             want = {"lik": int(r["lik"]), "data": int(r["data"]), "model": int(r["model"]), "prior": int(r["prior"]),
                     "comp0": int(r["comp"].split(",")[0]), "comp1": int(r["comp"].split(",")[1]), "post.lik": int(r["lik"]), "post.prior": int(r["prior"])}
             for k, oid in want.items():
-                if now[k] is not objs[oid]:
+                same = now[k] is objs[oid]
+                if not same and k in ("data", "comp1"):        # data: canonicalised values decide (every likelihood of a history has its own data values)
+                    try:
+                        same = bool(np.array_equal(np.asarray(now[k], dtype=float), np.asarray(objs[oid], dtype=float)))
+                    except Exception:
+                        same = False
+                if not same:
                     key = f"{name}:setters:{k}"
                     ctx.disagree("tie:" + key, d, f"object #{oid}", type(now[k]).__name__, f"{k} after the history is not the object the state machine gives")
                     ctx.fail("tie:" + key, d, f"the object assigned last (#{oid})", "another object",
                              f"after the call history, {k} handed out by the problem is not the likelihood's / the last assigned object: model, data, likelihood, prior no longer refer to the same objects")
             if lp is not None and ll is not None and np.isfinite(lp) and np.isfinite(ll) and not H.close(lp, ll, 1e-9):
                 ctx.fail(f"{name}:setters:posterior.logd", d, ll, lp, "posterior.logd is not the current likelihood's log-likelihood plus the current prior's log-density")
+    B.add(lines, cb)
+
+
+# ----------------------------------------------------------------------------- which option combinations Deconvolution1D accepts (Model/C17_options.lean)
+def option_stream(ctx, cuqi, B, stated):
+    """random option records for Deconvolution1D (both forms) with zero, one or several undocumented / ill-shaped options at
+    once: the constructor raises iff the model's decision function says so (tie; the exception class is only noted)"""
+    import harness.props.c17 as H
+    from cuqi.testproblem import Deconvolution1D
+    rng = ctx.rng
+    lines, jobs = [], []
+    n_cases = 120 * (4 if ctx.tier == "thorough" else 1)
+    for _ in range(n_cases):
+        dim = rng.choice([5, 6, 7, 8])
+        legacy = rng.random() < 0.4
+        faulty = rng.random() < 0.6
+        def pick(good, bad, p_bad=0.3):
+            return rng.choice(bad) if (faulty and rng.random() < p_bad) else rng.choice(good)
+        bc = pick(["periodic"] * 3 + (["zero", "Mirror", "REFLECT", "nearest", "Periodic"] if not legacy else []), ["dirichlet", "Periodic" if legacy else "neumann", "periodic ", ""], 0.25)
+        size = pick([None, None, 3, 5] if not legacy else [None], [4] if legacy else [None], 0.2)
+        psf_kind = pick(["A1", "S", "A1", "S"], ["A2", "A0", "O", "Sbad", "Alen"], 0.3)
+        pz = False
+        if psf_kind == "A1":
+            ln = dim if legacy else rng.choice([1, 3, 4, dim])
+            psf_tok, psf = f"A1,{ln}", np.arange(1.0, ln + 1)
+        elif psf_kind == "Alen":
+            ln = dim + 1 if legacy else 3
+            psf_tok, psf = f"A1,{ln}", np.arange(1.0, ln + 1)
+        elif psf_kind == "A2":
+            psf_tok, psf = f"A2,{dim}", np.ones((dim, 2))
+        elif psf_kind == "A0":
+            psf_tok, psf = "A0,0", np.array(1.0)
+        elif psf_kind == "O":
+            psf_tok, psf = "O", rng.choice([3.5, [1.0, 2.0, 1.0], None])
+            if psf is None and not legacy:
+                psf = 2.0
+        else:
+            names = (["gauss", "Gauss", "sinc", "prolate", "vonMises"] if legacy else ["gauss", "Moffat", "defocus", "DEFOCUS"]) if psf_kind == "S" else ["gaussian", "moffat" if legacy else "sinc", "box", ""]
+            nm = rng.choice(names)
+            psf_tok, psf = "S" + nm, nm
+            pz = (nm.lower() == "defocus" and rng.random() < 0.3)
+        ph_kind = pick(["A1", "S", "S"], ["A2", "Alen", "O", "Sbad"], 0.3)
+        refused = False
+        if ph_kind == "A1":
+            ph_tok, ph = f"A1,{dim}", np.arange(1.0, dim + 1)
+        elif ph_kind == "Alen":
+            ph_tok, ph = f"A1,{dim - 1}", np.arange(1.0, dim)
+        elif ph_kind == "A2":
+            ph_tok, ph = f"A2,{dim}", np.ones((dim, 1))
+        elif ph_kind == "O":
+            ph_tok, ph = "O", rng.choice([[1.0] * dim, 2.0])
+        else:
+            nm = rng.choice(["gauss", "Sinc", "vonMises", "square", "bumps", "derivGauss", "pc", "skyscraper"] if ph_kind == "S" else ["gaussian", "sin", "box", ""])
+            ph_tok, ph = "S" + nm, nm
+        ppar = None
+        if isinstance(ph, str) and ph.lower() == "square" and rng.random() < 0.4:
+            ppar = 2.5
+        if isinstance(ph, str):
+            st = stated.get(dim, ph, ppar)
+            if st is not None and st[0] == "nan":
+                continue                       # a 0/0 phantom: data-dependent refusal downstream, outside the decision function
+            refused = st is not None and st[0] == "raises"
+        noise = pick(["gaussian", "Gaussian", "scaledGaussian"], ["poisson", "gauss", ""], 0.25)
+        if any(t == "" for t in (bc, noise)) or psf_tok == "S" or ph_tok == "S":
+            continue                           # empty strings cannot travel on the line protocol
+        kw = dict(dim=dim, PSF=psf, PSF_param=(0 if pz else None), PSF_size=size, BC=bc, phantom=ph, phantom_param=ppar, noise_type=noise, noise_std=0.25, use_legacy=legacy)
+        with quiet():
+            try:
+                with H.scripted(400 + dim):
+                    Deconvolution1D(**kw)
+                got = None
+            except Exception as e:
+                got = f"{type(e).__name__}: {str(e)[:80]}"
+        if got is not None and ("infs or NaNs" in got):
+            continue                           # data-dependent (zero variance of the scaled noise): known finding, not an option refusal
+        desc = {"problem": "Deconvolution1D", "dim": dim, "use_legacy": legacy, "BC": bc, "PSF_size": size, "PSF": psf_tok, "PSF_param==0": pz, "phantom": ph_tok,
+                "phantom_param": ppar, "noise_type": noise}
+        lines.append(f"d1opts {dim} {int(legacy)} {bc.replace(' ', '_')} {'none' if size is None else size} {psf_tok} {int(pz)} {ph_tok} {int(refused)} {noise}")
+        jobs.append((desc, got))
+
+    def cb(outs):
+        for (desc, got), o in zip(jobs, outs):
+            ctx.case("option-decision", desc)
+            k = "accept" if o == "ok" else o
+            ctx.extra_cov.setdefault("option_decision", {}).setdefault(k, 0)
+            ctx.extra_cov["option_decision"][k] += 1
+            key = "tie:Deconvolution1D:options:" + ("legacy" if desc["use_legacy"] else "convolve1d")
+            if o == "ok" and got is not None:
+                ctx.disagree(key, desc, "constructed", got, "the constructor raised for an option record the decision function accepts")
+                ctx.fail(key, desc, "a constructed problem (every option is a documented one)", got, "the constructor refuses a documented option combination")
+            elif o.startswith("raises:") and got is None:
+                if desc["PSF_param==0"] and o == "raises:IndexError":
+                    continue                   # upstream fix of the Defocus delta branch (known finding) would land here
+                ctx.disagree(key, desc, o, "constructed", "the constructor accepted an option record the decision function refuses")
+                if desc["use_legacy"] and desc["BC"] != "periodic" and desc["BC"].lower() == "periodic":
+                    continue                   # only the spelling of 'periodic' (the legacy form compares literally): the tie is broken, the property is not
+                ctx.fail(key, desc, "an exception (an option is not one of the documented names / shapes)", "constructed", "the constructor accepts an undocumented or ill-shaped option")
+            elif o.startswith("raises:") and got is not None and not got.startswith(o.split(":", 1)[1]):
+                ctx.extra_cov["option_decision"]["class-differs"] = ctx.extra_cov["option_decision"].get("class-differs", 0) + 1
+                ctx.note(f"option refusal class: model {o}, code {got} at {desc}")
+            elif not (o == "ok" or o.startswith("raises:")):
+                ctx.note(f"driver refused d1opts line at {desc}: {o}")
     B.add(lines, cb)
